@@ -80,10 +80,16 @@ public:
     }
 
     static void invoke_epoch_thread() {
+        // fin() of an earlier init()/fin() cycle has raised the flag
+        kEpochThreadEnd.store(false, std::memory_order_release);
         kEpochThread = std::thread(epoch_thread);
     }
 
-    static void invoke_gc_thread() { kGCThread = std::thread(gc_thread); }
+    static void invoke_gc_thread() {
+        // fin() of an earlier init()/fin() cycle has raised the flag
+        kGCThreadEnd.store(false, std::memory_order_release);
+        kGCThread = std::thread(gc_thread);
+    }
 
     static void join_epoch_thread() { kEpochThread.join(); }
 
